@@ -831,7 +831,65 @@ Qed.
    with vm_compute if time permits (optional). (Not done here. H4-H6: see the
    STATEMENT-ISSUE comment above [order_inv_step].) *)
 
+(* ---- H3 is necessary: the property FAILS on the model when the subscription is sought ----
+   (the property's quantifier includes seeks; this is finding F19, replayed on the
+   implementation by the harness part seek-revival of the C05 check)
+
+   retention 600 s.  A (key k) is published, delivered and acknowledged; B and C (key k) are
+   published: B is chained behind A (acknowledged: not blocking), C behind B.  A seek to the
+   past at 60 s revives A with a FRESH retention (until 660 s) -- later than B's (620 s) and
+   C's (621 s).  A is delivered again and not acknowledged.  At 620.5 s B has expired without
+   ever being deliverable; the predecessor test looks one link back only, finds B expired, and
+   releases C -- while A, published earlier with the same key, is still outstanding. *)
+Module SeekRevival.
+  Definition tn : str := "projects/p/topics/t".
+  Definition sn : str := "projects/p/subscriptions/s".
+  Definition S : Z := 1000000000.
+  Definition q0 := mkSubreq sn tn 0 (600 * S) true [] "" false None None None.
+  Definition h : hist :=
+    [ (1 * S, CreateTopic tn [] false 1%N);
+      (2 * S, CreateSub q0 2%N (2 * S));
+      (10 * S, Publish tn [mkPubmsg "A" true [] "k" 1 10%N (10 * S)] [(10%N, 2%N, 20%N)]);
+      (11 * S, Pull sn 10 [20%N] [] (11 * S) [] []);
+      (12 * S, Ack sn (Some [20%N]) (12 * S));
+      (20 * S, Publish tn [mkPubmsg "B" true [] "k" 1 11%N (20 * S)] [(11%N, 2%N, 21%N)]);
+      (21 * S, Publish tn [mkPubmsg "C" true [] "k" 1 12%N (21 * S)] [(12%N, 2%N, 22%N)]);
+      (60 * S, SeekTime sn (5 * S) (60 * S));
+      (61 * S, Pull sn 1 [20%N] [] (61 * S) [] []) ].
+  Definition st := run empty_state h.
+  Definition now : time := 620500000000.
+  Definition o := Pull sn 1 [22%N] [] now [] [].
+End SeekRevival.
+
+Theorem C05_seek_revival_refuted :
+  exists (h : hist) (now : time) (o : op) (p : pulled) (d d0 : del) (sb : sub),
+    all_legal empty_state (h ++ [(now, o)]) /\ times_nondecreasing 0 (h ++ [(now, o)]) /\
+    get_sub (run empty_state h) (d_sub d) = Some sb /\ s_ordered sb = true /\
+    In p (pulled_of (answer (run empty_state h) now o)) /\
+    In d (dels (run empty_state h)) /\ d_id d = p_ack p /\
+    In d0 (dels (run empty_state h)) /\ earlier_same_key (run empty_state h) d0 d /\
+    active now d0 = true.
+Proof.
+  exists SeekRevival.h, SeekRevival.now, SeekRevival.o.
+  exists (mkPulled 22%N 12%N 1 "C" [] "k" (21 * SeekRevival.S)).
+  exists (mkDel 22%N 12%N 2%N (21 * SeekRevival.S) (21 * SeekRevival.S) 0 None (621 * SeekRevival.S) (Some 21%N) None).
+  exists (mkDel 20%N 10%N 2%N (10 * SeekRevival.S) 73100000000 2 None (660 * SeekRevival.S) None (Some (61 * SeekRevival.S))).
+  eexists.
+  split; [apply all_legal_b_sound; vm_compute; reflexivity|].
+  split; [vm_compute; intuition discriminate|].
+  split; [vm_compute; reflexivity|].
+  split; [reflexivity|].
+  split; [vm_compute; left; reflexivity|].
+  split; [vm_compute; right; right; left; reflexivity|].
+  split; [reflexivity|].
+  split; [vm_compute; left; reflexivity|].
+  split; [|vm_compute; reflexivity].
+  unfold earlier_same_key. split; [reflexivity|]. split; [|vm_compute; reflexivity].
+  exists "k". split; vm_compute; reflexivity.
+Qed.
+
 Print Assumptions order_inv_blocks.
 Print Assumptions order_inv_step.
 Print Assumptions C05_no_overtake_step.
 Print Assumptions C05_no_overtake.
+Print Assumptions C05_seek_revival_refuted.
